@@ -319,6 +319,8 @@ fn emitted_names_family(rep: &mut Report) {
     let mut fields = read("idents_fields.txt");
     // identifiers whose converted name starts with a digit (the dictionary has none)
     fields.extend(["_1", "_2fa", "__3d", "_4_u"].iter().map(|s| s.to_string()));
+    // identifiers without a single word in them: the converted name can be empty
+    fields.extend(["__", "___"].iter().map(|s| s.to_string()));
     let variants = read("idents_variants.txt");
     let mut jobs: Vec<(String, bool, &'static str, Lang, bool, bool, bool)> = Vec::new();
     for (list, variant) in [(&fields, false), (&variants, true)] {
@@ -403,7 +405,8 @@ fn emitted_names_family(rep: &mut Report) {
         let cfgname = if *prefixed { "all-knobs" } else { "plain" };
         // underscore(s) + digit: the one family of identifiers whose member name a backend can only derive by dropping
         // the underscores, which leaves a digit in front (known finding, see KF-C10-underscore-digit-field-names)
-        let digit_led = id.starts_with('_') && id.trim_start_matches('_').starts_with(|c: char| c.is_ascii_digit());
+        // (the same holds for identifiers made of underscores only: what is left is the empty name)
+        let digit_led = id.starts_with('_') && (id.trim_start_matches('_').starts_with(|c: char| c.is_ascii_digit()) || id.trim_start_matches('_').is_empty());
         let shape = |i: &str| if digit_led { "underscore-digit-identifier".to_string() } else { shape(i) };
         match obs {
             Ok(Some(o)) if o == exp => {}
